@@ -5,6 +5,7 @@ import (
 	"math/big"
 	"strings"
 
+	"github.com/cosmos/cosmos-sdk/types/address"
 	"github.com/cosmos/cosmos-sdk/types/bech32"
 
 	"verif/harness/chain"
@@ -201,3 +202,28 @@ func amountClass(v *big.Int) string {
 // Nobody: a well-formed account address that holds no role and no funds (used to build messages that decode
 // fine but are refused when executed).
 func Nobody() string { return Bech(Structured32(0x99)[:20]) }
+
+// SpecialAccountNames: module names whose (keyless) module accounts exist on Cosmos chains and on Noble; none of
+// them holds a CCTP role, so each is just another unauthorised submitter.
+var SpecialAccountNames = []string{"authority", "gov", "cctp", "fiat-tokenfactory", "tokenfactory", "bank", "mint", "distribution", "fee_collector",
+	"bonded_tokens_pool", "not_bonded_tokens_pool", "transfer", "interchainaccounts", "icahost", "upgrade", "params", "paramauthority", "globalfee",
+	"tariff", "consensus", "crisis", "evidence", "feegrant", "group", "slashing", "staking", "authz", "circuit", "forwarding", "aura", "halo", "florin",
+	"dollar", "swap", "wormhole", "hyperlane", "ibc", "capability", "packetfowardmiddleware", "router", "admin", "owner", "root", "noble"}
+
+// SpecialAccounts: bech32 addresses of the accounts above plus a few remarkable byte patterns.
+func SpecialAccounts() []string {
+	var out []string
+	for _, n := range SpecialAccountNames {
+		out = append(out, Bech(address.Module(n)))
+	}
+	out = append(out, Bech(make([]byte, 20)), Bech(bytesOf(0xff, 20)), Bech(bytesOf(0, 32)), Bech(address.Module("cctp", []byte("owner"))), Bech(address.Module("authority", []byte{0})))
+	return out
+}
+
+func bytesOf(b byte, n int) []byte {
+	o := make([]byte, n)
+	for i := range o {
+		o[i] = b
+	}
+	return o
+}
